@@ -18,6 +18,7 @@ func init() {
 		ruleS17_3(c, "C17.S3")
 		ruleS17_4(c, "C17.S4")
 		ruleS17_5(c, "C17.S5")
+		ruleS17_6(c, "C17.S6")
 		ruleV1x(c, "C17.V1", []string{"simple.MakeFh"}, 1)
 		ruleV5(c, "C17.V5")
 	}
@@ -969,6 +970,61 @@ func ruleS17_4(c *Ctx, id string) {
 			onlyData = false
 		}
 	}
+	// ... and reaches every inode a handle can name: its loop runs over [a, B) with a <= the smallest number
+	// validInum accepts and B the bound above which validInum refuses (block 0 - the Data of an inode that was
+	// never initialised - is the header of the write-ahead log)
+	if vi := c.fn(id, "simple.validInum"); vi != nil {
+		upper := ""
+		for _, br := range branches(vi) {
+			if br.Cond.X == nil || br.Cond.Y == nil {
+				continue
+			}
+			op, x, y := br.Cond.Op, stripConv(br.Cond.X), stripConv(br.Cond.Y)
+			if _, isP := y.(*ssa.Parameter); isP {
+				op, x, y = flipOp(op), y, x
+			}
+			if _, isP := x.(*ssa.Parameter); !isP {
+				continue
+			}
+			if _, isK := constInt(y); isK {
+				continue
+			}
+			// inum >= U refuses (true side returns false) / inum < U goes on
+			if op == token.GEQ || op == token.LSS {
+				upper = sym(&symCtx{}, y, Subst{}, 0)
+			}
+		}
+		lv := findLoopVar(init, 1)
+		okCover, why := false, "no counter stepped by one in inodeInit"
+		if lv != nil && lv.phi != nil && upper != "" {
+			adv, nb := lv.alwaysAdvances()
+			initOK := false
+			for i, e := range lv.phi.Edges {
+				if !lv.phi.Block().Dominates(lv.phi.Block().Preds[i]) {
+					k, isk := constInt(stripConv(e))
+					initOK = isk && k <= 2
+				}
+			}
+			bound := ""
+			for _, br := range branches(init) {
+				if br.Cond.X == nil || br.Cond.Y == nil {
+					continue
+				}
+				op, x, y := br.Cond.Op, stripConv(br.Cond.X), stripConv(br.Cond.Y)
+				if lv.is(y) {
+					op, x, y = flipOp(op), y, x
+				}
+				if lv.is(x) && (op == token.LSS || op == token.GEQ) {
+					bound = sym(&symCtx{}, y, Subst{}, 0)
+				}
+			}
+			okCover = adv && nb > 0 && initOK && bound == upper
+			why = fmt.Sprintf("loop bound %s, validInum accepts numbers below %s, starts low enough=%v, advances=%v", bound, upper, initOK, adv && nb > 0)
+		} else if upper == "" {
+			why = "upper bound of validInum not found"
+		}
+		R.Check(okCover, id, "simple.inodeInit|reaches every inode a handle can name", P.Pos(init.Pos()), "inodeInit's loop covers every inode number validInum accepts", "same upper bound, start <= 2, step 1", why+": an inode that is never given its data block keeps Data = 0, the header block of the write-ahead log - writes to that file are lost and recovery reads client bytes as a log header")
+	}
 	R.Check(okRead && onlyData && n > 0, id, "simple.inodeInit|keeps what the inodes hold", P.Pos(init.Pos()), "inodeInit writes back inodes obtained from ReadInode and stores only their Data field", fmt.Sprintf("%d WriteInode calls on inodes that were read; only Data assigned", n), "MakeNfs runs inodeInit on every start: building the inodes afresh resets every file's size, acknowledged writes do not survive a restart")
 }
 
@@ -1223,4 +1279,22 @@ func helperResultValues(v ssa.Value, sub Subst, d int) []subVal {
 		return []subVal{{v, sub}}
 	}
 	return out
+}
+
+// ruleS17_6: SimpleNFS' own codecs (the part of C10.W3 that is about package
+// simple): the handle and the inode are decoded with the widths and in the
+// order they were encoded, and fit their slots.  A handle decoded narrower than
+// it was encoded lets a forged number that differs from a file's by 2^32 pass
+// validInum as that file.
+func ruleS17_6(c *Ctx, id string) {
+	P := c.P
+	c.R.Rule(id, "SimpleNFS codecs are inverse: simple.Inode Encode/Decode (128-byte slot) and the handle codec MakeFh3/MakeFh (16 bytes) perform the same (kind, width, field) sequence", 4)
+	inodesz := int64(-1)
+	if cp := P.Pkg(jrnlPath + "/common"); cp != nil {
+		if o := cp.Types.Scope().Lookup("INODESZ"); o != nil {
+			inodesz, _ = constValInt(o)
+		}
+	}
+	compareCodec(c, id, "simple.Inode", c.fn(id, "simple.(*Inode).Encode"), c.fn(id, "simple.Decode"), inodesz, true)
+	compareCodec(c, id, "simple.Fh", c.fn(id, "simple.(Fh).MakeFh3"), c.fn(id, "simple.MakeFh"), 16, true)
 }
